@@ -74,14 +74,12 @@ def run(rep, tier, seed, build):
     audit(rep, "props/C05.v", THEOREMS, build)
     progs = corpus("C05") + programs(seed, n, nops)
     res = run_seq(rep, progs)
-    races = 0
-    for kind in ("pullup", "gc", "major"):
-        for mode in (("plain",) if tier == "quick" else ("plain", "sw", "occ")):
-            races += 1
-            bad = open_race(kind, mode)
-            if bad:
-                rep.violation("# C05: %s\n%s" % bad)
-    coverage(rep, res, progs, RULE, dict(open_race_schedules=races))
+    from common import pmap_confirm
+    sched = [(kind, mode) for kind in ("pullup", "gc", "major") for mode in (("plain",) if tier == "quick" else ("plain", "sw", "occ"))]
+    rr, unconf = pmap_confirm(lambda a: open_race(*a), sched, lambda x: bool(x), workers=3)
+    for bad in [x for x in rr if x][:2]:
+        rep.violation("# C05: %s\n%s" % bad)
+    coverage(rep, res, progs, RULE, dict(open_race_schedules=len(sched), unconfirmed_alarms=unconf))
 
 
 def replay(rep, path, build):
